@@ -181,4 +181,4 @@ Example history_example :
   init false 10 = Some {| _prev := None; _delta := 10 |} /\
   history {| _prev := None; _delta := 10 |} 100 [0; 0; 3; 25; 10; 0] = [100; 110; 120; 130; 155; 165; 170] /\
   history_sleeps {| _prev := None; _delta := 10 |} 100 [0; 0; 3; 25; 10; 0] = [0; 10; 10; 7; 0; 0; 5].
-Proof. vm_compute. repeat split. Qed.
+Proof. repeat split; reflexivity. Qed.
